@@ -1043,3 +1043,192 @@ func ruleStatedSubscribers(c *core.Ctx, rule string) {
 			"the emitter encodes by the signature the subscription names: "+bad)
 	}
 }
+
+// ruleStatedAccessors: generated property accessors.  A setter wraps the bytes
+// it encoded as value.Opaque(sig, buf.Bytes()): what was encoded is sig.  A
+// getter writes the value it received into a buffer, reads the signature back,
+// compares it with a constant and decodes the rest: what it decodes is that
+// constant.
+func ruleStatedAccessors(c *core.Ctx, rule string) {
+	t := newSigTable(c)
+	seen := map[string]bool{}
+	for _, fn := range c.RepoFuncs() {
+		if fn.Parent() != nil || c.IsTestFile(fn) || c.InWitness(fn.Pos()) {
+			continue
+		}
+		for _, call := range core.Calls(fn) {
+			cc := call.Common()
+			f := cc.StaticCallee()
+			if f == nil {
+				continue
+			}
+			switch core.FuncKey(f) {
+			case "type/value.Opaque":
+				sig, ok := core.ConstString(cc.Args[0])
+				if !ok {
+					continue
+				}
+				key := fmt.Sprintf("%s/opaque:%s", core.FuncKey(fn), abbrev(sig))
+				// the bytes: buf.Bytes() of a local buffer
+				bc, _ := core.Canon(cc.Args[1]).(*ssa.Call)
+				var buf ssa.Value
+				if bc != nil {
+					if bf := bc.Call.StaticCallee(); bf != nil && core.FuncKey(bf) == "bytes.Buffer.Bytes" && len(bc.Call.Args) == 1 {
+						buf = core.Canon(bc.Call.Args[0])
+					}
+				}
+				if _, isAl := buf.(*ssa.Alloc); !isAl {
+					continue // bytes that were not encoded here
+				}
+				sn, err := t.parse(sig)
+				if err != nil {
+					c.Fail(rule, key, call.Pos(), fmt.Sprintf("the stated signature %q does not parse: %v", sig, err))
+					continue
+				}
+				wr, prob := shapeOf(c, fn, buf)
+				if prob != "" {
+					c.Undecided(rule, key, call.Pos(), "encode shape: "+prob)
+					continue
+				}
+				wr = flatten(wr)
+				k, d := t.shapeMatches(c, sn, wr, 0, "write", seen)
+				bad := ""
+				if d != "" {
+					bad = fmt.Sprintf("%s (encoded: %s)", d, shapeString(wr))
+				} else if k != len(wr) {
+					bad = fmt.Sprintf("the buffer also carries %s", wr[k].String())
+				}
+				c.Check(bad == "", rule, key, call.Pos(), "the bytes wrapped are an encoding of "+abbrev(sig),
+					"the object validates and stores the value under the signature stated here: "+bad)
+			case "type/basic.ReadString":
+				// s, err := basic.ReadString(&buf); … sig != s …
+				cv, ok := call.(*ssa.Call)
+				if !ok || len(cc.Args) != 1 {
+					continue
+				}
+				buf := core.Canon(cc.Args[0])
+				if _, isAl := buf.(*ssa.Alloc); !isAl {
+					continue
+				}
+				read := firstResult(cv)
+				sig := ""
+				for _, r := range core.Referrers(read) {
+					if bo, ok := r.(*ssa.BinOp); ok && (bo.Op == token.NEQ || bo.Op == token.EQL) {
+						for _, side := range []ssa.Value{bo.X, bo.Y} {
+							if s, ok := core.ConstString(core.Canon(side)); ok {
+								sig = s
+							}
+						}
+					}
+				}
+				if sig == "" {
+					continue
+				}
+				key := fmt.Sprintf("%s/expects:%s", core.FuncKey(fn), abbrev(sig))
+				sn, err := t.parse(sig)
+				if err != nil {
+					c.Fail(rule, key, call.Pos(), fmt.Sprintf("the expected signature %q does not parse: %v", sig, err))
+					continue
+				}
+				all, prob := shapeOf(c, fn, buf)
+				if prob != "" {
+					c.Undecided(rule, key, call.Pos(), "decode shape: "+prob)
+					continue
+				}
+				var rd []tok
+				for _, x := range answerArm(flatten(all)) {
+					if x.Kind == "prim" && x.Dir == "write" {
+						continue
+					}
+					rd = append(rd, x)
+				}
+				bad := ""
+				if len(rd) == 0 || rd[0].Kind != "prim" || rd[0].Name != "String" {
+					bad = "the signature is not the first thing read back (" + shapeString(rd) + ")"
+				} else {
+					k, d := t.shapeMatches(c, sn, rd[1:], 0, "read", seen)
+					if d != "" {
+						bad = fmt.Sprintf("%s (decoded: %s)", d, shapeString(rd[1:]))
+					} else if k != len(rd)-1 {
+						bad = fmt.Sprintf("also decodes %s", rd[1+k].String())
+					}
+				}
+				c.Check(bad == "", rule, key, call.Pos(), "a value whose signature is "+abbrev(sig)+" is decoded as that",
+					"the getter accepts a value of one signature and decodes it as another: "+bad)
+			}
+		}
+	}
+}
+
+// ruleValidatorDecodesDeclared: the generated onPropertyChange(name, data) of a
+// stub decodes, under the case of a property name, the signature the
+// meta-object of the same type declares for that property, before handing the
+// value to the implementation's validator.
+func ruleValidatorDecodesDeclared(c *core.Ctx, rule string) int {
+	t := newSigTable(c)
+	tables := metaTables(c)
+	seen := map[string]bool{}
+	n := 0
+	for _, fn := range c.RepoFuncs() {
+		if fn.Parent() != nil || fn.Signature.Recv() == nil || c.IsTestFile(fn) || c.InWitness(fn.Pos()) || len(fn.Params) != 3 {
+			continue
+		}
+		if b, ok := fn.Params[1].Type().Underlying().(*types.Basic); !ok || b.Kind() != types.String {
+			continue
+		}
+		if sl, ok := fn.Params[2].Type().Underlying().(*types.Slice); !ok || !types.Identical(sl.Elem(), types.Typ[types.Byte]) {
+			continue
+		}
+		rt := fn.Signature.Recv().Type()
+		if p, ok := rt.(*types.Pointer); ok {
+			rt = p.Elem()
+		}
+		named, _ := rt.(*types.Named)
+		if named == nil || tables[named] == nil {
+			continue
+		}
+		isName := func(v ssa.Value) bool { return core.Canon(v) == ssa.Value(fn.Params[1]) }
+		for _, rd := range payloadReaders(fn) {
+			in := rd.(ssa.Instruction)
+			var entry *metaEntry
+			for i := range tables[named] {
+				e := &tables[named][i]
+				if e.Kind != "property" {
+					continue
+				}
+				want := e.Name
+				isS := func(v ssa.Value) bool { s, ok := core.ConstString(core.Canon(v)); return ok && s == want }
+				if core.Guarded(fn, in, core.Eq(isName, isS)) {
+					entry = e
+				}
+			}
+			n++
+			if entry == nil {
+				c.Fail(rule, fmt.Sprintf("%s/validator#%d", core.FuncKey(fn), n), in.Pos(), "a property value is decoded under a name the meta-object of the same type does not declare")
+				continue
+			}
+			key := fmt.Sprintf("%s/validator:%s", core.FuncKey(fn), entry.Name)
+			sn, err := t.parse(entry.Sig)
+			if err != nil {
+				c.Fail(rule, key, in.Pos(), fmt.Sprintf("declared signature %q does not parse: %v", entry.Sig, err))
+				continue
+			}
+			toks, prob := shapeOf(c, fn, rd)
+			if prob != "" {
+				c.Undecided(rule, key, in.Pos(), "decode shape: "+prob)
+				continue
+			}
+			toks = answerArm(flatten(toks))
+			k, d := t.shapeMatches(c, sn, toks, 0, "read", seen)
+			bad := ""
+			if d != "" {
+				bad = fmt.Sprintf("%s (decoded: %s)", d, shapeString(toks))
+			} else if k != len(toks) {
+				bad = fmt.Sprintf("also decodes %s", toks[k].String())
+			}
+			c.Check(bad == "", rule, key, in.Pos(), fmt.Sprintf("the value handed to the validator of %q is decoded as %s, its declared signature", entry.Name, abbrev(entry.Sig)),
+				"SetProperty admits values of the declared signature and the validator decodes them as another: "+bad)
+		}
+	}
+	return n
+}
